@@ -24,7 +24,7 @@ THEOREMS = ['bin_roundtrip', 'bin_load_total', 'bin_resave', 'adf_roundtrip', 'a
             'xb_compression_transparent_one_font', 'xb_compression_transparent_two_fonts', 'xb_roundtrip_any_page', 'xb_roundtrip_any_two_pages',
             'xb_compressed_file_spec_conformant',
             'xb_resave_any', 'xb_resave_512', 'known_2_exact', 'known_2_refusal', 'known_2_witness_both_writers',
-            'bin_file_roundtrip', 'tnd_file_roundtrip', 'xb_file_roundtrip_one_font', 'xb_file_roundtrip_two_fonts', 'tnd_file_resave',
+            'bin_file_roundtrip', 'tnd_file_roundtrip', 'xb_file_roundtrip_one_font', 'xb_file_roundtrip_two_fonts', 'adf_file_roundtrip', 'idf_file_roundtrip', 'tnd_file_resave',
             'idf_wide_contains_idf', 'idf_roundtrip_any_width', 'idf_resave_any_width', 'known_1_exact']
 SWEEP_LEMMAS = ['C05BinProofs.from_u8_vis_sweep (256 bytes x 3 modes: a decoded attribute is visible and on font page 0)',
                 'C05AdfProofs.six_bit_sweep / expand6_idem_sweep (64 six-bit values, 256 byte values of the u8 expression r << 2 | r >> 4)',
@@ -372,9 +372,9 @@ def correspondence(ctx):
             d2 = mutate(rng, data, header_len(fmt, data))
             if len(d2) > 60000: continue
             mcases.append({'kind': 'resave', 'fmt': fmt, 'data': d2, 'tail': tail, 'pic': c['pic'], 'comp': c['comp'], 'sauce': c['sauce']})
-    mcases += xb512_cases(rng, by_fmt['xb'], ctx.n(10, 60))
+    mcases += xb512_cases(rng, by_fmt['xb'], ctx.n(10, 45))
     mcases += [{'kind': 'resave', 'fmt': 'idf', 'data': d, 'tail': None, 'pic': None, 'comp': rng.randrange(2), 'sauce': 0, 'directed': 'idf wide'}
-               for d in idf_wide_files(rng, ctx.n(6, 40))]
+               for d in idf_wide_files(rng, ctx.n(5, 24))]
     mimpl = ctx.impl(['c5resave %s %d %d %s' % (c['fmt'], c['comp'], c['sauce'], hexs(c['data'] + (c['tail'] or []))) for c in mcases], per_case_timeout=30)
     for c in mcases:
         s = sauce_of(c['fmt'], c['pic']) if c['tail'] else 'None'
@@ -383,10 +383,10 @@ def correspondence(ctx):
     # third wave (extension): whole files WITH their SAUCE bytes - Buffer::to_bytes(.., save_sauce) byte for byte (the date bytes are
     # taken from the real output) and Buffer::from_bytes on them, through Model/C05Files.v (C05 data + C11 record / split)
     fcases = []; fnorm = []
-    nfile = ctx.n(8, 60); per_fmt = {}
+    nfile = ctx.n(6, 36); per_fmt = {}
     for c, r in zip(cases, impl):
         fk = (c['fmt'], c['comp'])                                             # XBin: both data layouts
-        if c['fmt'] not in ('bin', 'xb', 'tnd') or not c['sauce'] or per_fmt.get(fk, 0) >= (nfile if c['fmt'] != 'xb' else (nfile + 1) // 2): continue
+        if not c['sauce'] or per_fmt.get(fk, 0) >= (nfile if c['fmt'] not in ('xb', 'idf') else (nfile + 1) // 2): continue
         if not (r and r[0] == 'ok' and r[1][0] == 1) or c['pic'].w * c['pic'].h > 1000 or c['pic'].w > 160: continue
         n = r[1][1]; b = r[1][2:2 + n]
         data, tail = split_sauce(b)
@@ -913,8 +913,7 @@ UNMODELLED = ['re-save stability is proved for every file the five loaders accep
               'cells whose colour is TextAttribute::TRANSPARENT_COLOR (1 << 31) and buffers with more than one layer, an alpha-channel layer or terminal buffers (Buffer::get_char takes other paths)',
               'fonts that are not embedded in the file (BIN, Tundra: the SAUCE font name), BitFont names other than "is it the default font", guess_font_name beyond that (CRC-32 equality is modelled as glyph equality)',
               'ColorOptimizer (SaveOptions.lossles_output = false): property C12; every case here saves with lossles_output = true',
-              'whole files with their SAUCE bytes are modelled for BIN, Tundra and XBin (Model/C05Files.v); for ADF and IDF the models take the record as the loader sees it (ADF: width 80; IDF ignores it). '
-              'The extension dispatch of Buffer::from_bytes is C02\'s; TerminalState resizing inside set_sauce, file names, SAUCE title/author/comments are C11\'s']
+              'the extension dispatch of Buffer::from_bytes is C02\'s; TerminalState resizing inside set_sauce, file names, the SAUCE title/author/comments a buffer carries (stage C buffers have none; the theorems hold for any) are C11\'s']
 ASSUMPTIONS = ['Rust u8/u16/i32 operators behave as written into the model: `as u8` is mod 256, `r << 2 | r >> 4` on u8 truncates, i32 `/` truncates, `>>` on i32 is arithmetic',
                'the loop transcriptions: `loop { for _ in 0..width { … } }`, `while o < len` and `while x < width { …; x += rle_count }` are written as structural / fuelled recursion over the byte or cell list (stated in each Model file header); '
                'fuel is shown sufficient inside the round-trip proofs and is never exhausted in stage C',
@@ -927,7 +926,7 @@ RULE = ('random pictures per format from the quantifier: BIN even widths 2..510 
         'cell area and in the header, single-byte deletion; stage S additionally runs the sizes at the ends of the quantifier (1x1, 80x1, 80x10, 4096 wide, 200 high, 510 / 1000 wide) with cells computed by a '
         'hash on both sides. Extension: XBin pictures are saved with either value of SaveOptions.compress (stage C: whole compressed files byte for byte); mutated files include compressed ones; directed re-save inputs: '
         'XBin files in 512-character mode using pages {0,1} / only 0 / only 1, with and without the font block (hand-made and derived from the writer\'s own files), IDF files 81..300 columns wide with repeat headers crossing column 80; '
-        'files with their SAUCE bytes for BIN, Tundra, XBin. A case is non-trivial when the writer produced a file (or the loader accepted the mutated file); distinct = distinct (format, size, options, content).')
+        'files with their SAUCE bytes for all five formats. A case is non-trivial when the writer produced a file (or the loader accepted the mutated file); distinct = distinct (format, size, options, content).')
 LEVEL_TEXT = ('Machine-checked proof (Coq, closed under the global context) for all five formats that save-then-load reproduces the picture, for pictures of EVERY size the format admits and every cell content: '
               'BIN (even width 2..510, any height, all modes) and Tundra (width 1..1000, arbitrary 24-bit colours compared as displayed) as the BYTES Buffer::to_bytes(.., save_sauce) writes and Buffer::from_bytes reads '
               '(composition with C11: the width travels through the SAUCE record, the record is cut off exactly), ADF (80 columns, any number of rows incl. none, six-bit palette through the 64-register EGA block, 8x16 font), '
